@@ -603,6 +603,9 @@ def run(rep, tier):
         # on-demand / lazy keys are decoded only when the skipper reports an escape (shared with C10)
         from . import c10
         c10.clause_escape_flag(facts, rep, nss)
+        # 'GetParseError() in {UnEscaped, EscapedFormat, EscapedUnicode}': the class set by the string scanner is kept (shared with C01)
+        from . import c01 as _c01
+        _c01.clause_first_error(facts, rep)
         from . import c15
         c15.clause_h(facts, rep)      # `v <= 0x1f` of the control-byte screening is an unsigned lane compare
     rep.trust('clang 14 front end and constant evaluator', 'Python str.encode("utf-8") as the RFC 3629 oracle', 'path enumeration is exhaustive for the loop-free handle_unicode_codepoint')
